@@ -184,7 +184,7 @@ def real_proj(ex):
     gates = sorted(('%s:%s' % (g.info[1], g.info[3])) if g.kind == 'collab' else (g.info or (0, '?'))[1]
                    for g in loop.pending_gates())
     return {'res': res, 'hid': hid, 'proc': proc, 'hidp': hidp, 'sw': sw, 'active': [tuple(a) for a in active],
-            'addl': sorted(short(k) for k in mgr._additional_data),
+            'addl': sorted(short(k) for k, v in mgr._additional_data.items() if v is not None),
             'conds': conds, 'evw': evw, 'ev': sorted(ev), 'ready': ready, 'gates': gates,
             'timers': len(loop.pending_timers()), 'done': done, 'phase': phase}
 
